@@ -44,9 +44,10 @@ func (eval Evaluator) ExternalProduct(op0 *rlwe.Ciphertext, op1 *Ciphertext, opO
 
 	levelQ, levelP := op1.LevelQ(), op1.LevelP()
 
-	// Only the two components of the result are written: a receiver of higher degree is cut to degree one
-	if opOut.Degree() != 1 {
-		opOut.Resize(1, opOut.Level())
+	// Only the two components of the result are written, at the level of op1: a receiver of higher degree
+	// is cut to degree one, a receiver of another level is brought to the level of the result
+	if opOut.Degree() != 1 || opOut.Level() != levelQ {
+		opOut.Resize(1, levelQ)
 	}
 
 	var c0QP, c1QP ringqp.Poly
